@@ -245,6 +245,12 @@ fn san_check(case: &Value, stats: &mut Stats) -> CheckResult {
             (Ok(nb), Some(m)) => expect_result(nb, &r, m, "make_move(San canonical)")?,
             (Err(e), Some(m)) => fail!("canonical SAN {:?} of the legal move {} was refused: {}", t, m.uci(), e),
             (Ok(nb), None) => {
+                // a text that several legal moves match does not denote a move: it must be refused
+                if desc != SanDesc::Unknown {
+                    let cands: Vec<String> = l.iter().filter(|m| agrees(&desc, m, &r)).map(|m| m.uci()).collect();
+                    ensure!(cands.len() <= 1, "San({:?}) was accepted although {} legal moves match it: {:?}", t, cands.len(), cands);
+                    stats.label_if(cands.len() == 1, "unique_match_accepted");
+                }
                 // only-if: the result must be the successor by some legal move that agrees with the text
                 let succ: Vec<&RefMove> = l.iter().filter(|m| raw_from_ref(&r.apply(m)) == *nb.raw()).collect();
                 ensure!(!succ.is_empty(), "San({:?}) produced {} which no legal move leads to", t, nb.raw().as_fen());
@@ -252,7 +258,11 @@ fn san_check(case: &Value, stats: &mut Stats) -> CheckResult {
                 check_valid_result(nb, "make_move(San)")?;
                 stats.label("noncanonical_san_accepted");
             }
-            (Err(_), None) => {}
+            (Err(_), None) => {
+                if desc != SanDesc::Unknown && l.iter().filter(|m| agrees(&desc, m, &r)).count() >= 2 {
+                    stats.label("ambiguous_text_refused");
+                }
+            }
         }
         // make_raw: tells us the move that was made
         match San(t.as_str()).make_raw(&mut cur) {
@@ -340,10 +350,20 @@ fn gen_san_case(cur: &mut Cursor) -> Value {
                     mutate(cur, &p.san(&m, &l), MOVE_ALPHABET)
                 }
             }
-            4 => {
+            4 if cur.bool() => {
                 let f1 = (b'a' + cur.below(8) as u8) as char;
                 let f2 = (b'a' + cur.below(8) as u8) as char;
                 format!("{}{}{}", f1, f2, cur.pick(&["", "", "=Q", "N"]))
+            }
+            4 => {
+                // a piece move with all origin hints stripped (ambiguous when several pieces reach the square)
+                let pm: Vec<&RefMove> = l.iter().filter(|m| m.man.1 != Pc::P && m.kind == Kind::Simple).collect();
+                if pm.is_empty() {
+                    String::new()
+                } else {
+                    let m = pm[cur.below(pm.len())];
+                    format!("{}{}{}", m.man.1.letter(), if p.b[m.to as usize].is_some() { "x" } else { "" }, sq_name(m.to))
+                }
             }
             _ => alphabet_string(cur, MOVE_ALPHABET, 8),
         })
@@ -520,7 +540,7 @@ pub fn property() -> Property {
                 driver: Driver::Generated { gen: gen_san_case, genome_len: 320, quick: 150_000, thorough: 3_000_000 },
                 check: san_check,
                 configs: Configs::Both,
-                required: &["has_illegal_pseudolegal", "noncanonical_san_accepted", "tokenized"],
+                required: &["has_illegal_pseudolegal", "noncanonical_san_accepted", "tokenized", "ambiguous_text_refused"],
                 regressions: &[
                     r#"{"fen":"8/8/8/K2Pp2r/8/8/8/7k w - e6 0 1","src":"regression_D1","texts":["de","dxe6","d5e6","de6"]}"#,
                     r#"{"fen":"rnbqkbnr/pppppppp/8/8/8/8/PPPPPPPP/RNBQKBNR w KQkq - 0 1","src":"regression_D2","texts":["N","R+","Nx","Q#","€","N€"]}"#,
